@@ -41,3 +41,64 @@ pub fn entry_text(e: Option<&Entry>) -> String {
         Some(e) => format!("{} {} {} {} {}", e.hash_key, e.eval, opt_mv_text(&e.best_move), e.depth, bounds_name(e.bounds)),
     }
 }
+
+// ---------------------------------------------------------------- boards
+use crate::board::{Board, Castle, Position};
+use crate::pieces::Color;
+
+/// canonical board text: p,n,b,r,q,k,white,black,side,castle-mask,ep,half,full  (raw bitboards so that
+/// malformed boards can be expressed too)
+pub fn board_text(b: &Board) -> String {
+    let (wk, wq) = b.castling_ability(Color::White);
+    let (bk, bq) = b.castling_ability(Color::Black);
+    let mask = (wk as u8) | (wq as u8) << 1 | (bk as u8) << 2 | (bq as u8) << 3;
+    format!(
+        "{},{},{},{},{},{},{},{},{},{},{},{},{}",
+        b.bb_piece(Piece::Pawn), b.bb_piece(Piece::Knight), b.bb_piece(Piece::Bishop), b.bb_piece(Piece::Rook),
+        b.bb_piece(Piece::Queen), b.bb_piece(Piece::King), b.bb_color(Color::White), b.bb_color(Color::Black),
+        if b.active_color == Color::White { "w" } else { "b" }, mask,
+        match b.en_passant_target { Some(s) => s.to_string(), None => "-".into() },
+        b.halfmove_clock, b.fullmove_counter
+    )
+}
+
+/// builds a Board from raw bitboards through the public API only (Position::new + add_piece per bit;
+/// a square set in a colour board but in no piece board, or vice versa, cannot be expressed and yields None)
+pub fn board_from_raw(pcs: [u64; 6], white: u64, black: u64, side: Color, mask: u8, ep: Option<u8>, half: u32, full: u32) -> Option<Board> {
+    let mut pos = Position::new();
+    let all_p = pcs.iter().fold(0u64, |a, b| a | b);
+    if all_p != (white | black) { return None; }
+    for (i, p) in PIECES.iter().enumerate() {
+        for sq in 0..64u8 {
+            if pcs[i] >> sq & 1 == 1 {
+                if white >> sq & 1 == 1 { pos.add_piece(Color::White, *p, sq); }
+                if black >> sq & 1 == 1 { pos.add_piece(Color::Black, *p, sq); }
+            }
+        }
+    }
+    let b = Board {
+        position: pos,
+        active_color: side,
+        castling_ability: Castle::new(mask & 1 != 0, mask & 2 != 0, mask & 4 != 0, mask & 8 != 0),
+        en_passant_target: ep,
+        halfmove_clock: half as _,
+        fullmove_counter: full as _,
+    };
+    // make sure the round trip is exact (overlapping piece boards are fine, they are reproduced bit for bit)
+    for (i, p) in PIECES.iter().enumerate() { if b.bb_piece(*p) != pcs[i] { return None; } }
+    if b.bb_color(Color::White) != white || b.bb_color(Color::Black) != black { return None; }
+    Some(b)
+}
+
+pub fn parse_board(s: &str) -> Option<Board> {
+    let f: Vec<&str> = s.split(',').collect();
+    if f.len() != 13 { return None; }
+    let mut pcs = [0u64; 6];
+    for i in 0..6 { pcs[i] = f[i].parse().ok()?; }
+    let white: u64 = f[6].parse().ok()?;
+    let black: u64 = f[7].parse().ok()?;
+    let side = match f[8] { "w" => Color::White, "b" => Color::Black, _ => return None };
+    let mask: u8 = f[9].parse().ok()?;
+    let ep = if f[10] == "-" { None } else { Some(f[10].parse::<u8>().ok()?) };
+    board_from_raw(pcs, white, black, side, mask, ep, f[11].parse().ok()?, f[12].parse().ok()?)
+}
